@@ -2234,6 +2234,31 @@ def replay(ctx, path):
         print("model   :", norm_conv_model(model[0]))
         print("model of the unrepaired code:", norm_conv_model(cur[0]))
         return 0 if got == norm_conv_model(model[0]) else 1
+    if "s2t" in rp and "unit_model" in rp:
+        ctx.lean_build(["sqfsmodel"])
+        tools = {t: ctx.build_tool(t) for t in ("tar2sqfs", "sqfs2tar", "gensquashfs")}
+        env = ctx.san_env({"SOURCE_DATE_EPOCH": "0"})
+        img = ctx.scratch / "replay.sqfs"
+        c = rp["s2t"]
+        if "archive_hex" in c:
+            r = sh_t([str(tools["tar2sqfs"]), "-q", "-f", "-j", "1", str(img)], input=untok(c["archive_hex"]), env=env, timeout=1800, text=False)
+        else:
+            print("image came from a gensquashfs pack file with content files in a scratch directory; pack file:\n" + c.get("pack_file", ""))
+            print("re-run the tier with the same VERIF_SEED to regenerate it")
+            return 1
+        if r.returncode != 0:
+            print("tar2sqfs fails on the recorded archive (exit %d): %s" % (r.returncode, r.stderr.decode("latin1")[-300:]))
+            return 1
+        r = sh_t([str(tools["sqfs2tar"]).encode()] + [a.encode("latin1") for a in c["argv"]] + [str(img).encode()], env=env, timeout=1800, text=False)
+        model = run_model(ctx, rp["unit_model"])[0]
+        got = "fail" if r.returncode != 0 else "ok " + tok(r.stdout)
+        print("sqfs2tar %s: exit %d, %d bytes; model: %s" % (" ".join(c["argv"]), r.returncode, len(r.stdout), "fail" if model == "fail" else "%d bytes" % (len(model) // 2 - 1)))
+        if got != model and got != "fail" and model != "fail":
+            a, b = r.stdout, untok(model[3:])
+            k = next((i for i in range(min(len(a), len(b))) if a[i] != b[i]), min(len(a), len(b)))
+            print("first difference at offset %d (record %d): real %r / model %r" % (k, k // 512, a[k - k % 512:k - k % 512 + 120].rstrip(b"\0"), b[k - k % 512:k - k % 512 + 120].rstrip(b"\0")))
+            print("member names (real):", walk_member_names(a))
+        return 0 if got == model else 1
     if "xkey" in rp:
         tools = {t: ctx.build_tool(t) for t in ("tar2sqfs", "sqfs2tar")}
         pairs = [(untok(k), untok(v)) for k, v in rp["xkey"]["pairs"]]
